@@ -645,7 +645,13 @@ func (m *mappedFile) lookup(name string) (v *atomic.Uint64, headOff, head uint32
 	headOff = m.hdrLen + hashOff + h*4
 	head = m.load32(headOff)
 	off := head
-	for off != 0 {
+	// A chain cannot hold more records than fit in the mapped file;
+	// a longer walk means that the links form a cycle (corrupt file).
+	maxRecords := len(m.mapping.Data) / recordUnit
+	for n := 0; off != 0; n++ {
+		if n > maxRecords {
+			return nil, 0, 0, false
+		}
 		ename, next, v, ok := m.entryAt(off)
 		if !ok {
 			return nil, 0, 0, false
@@ -763,9 +769,10 @@ func (m *mappedFile) newCounter(name string) (v *atomic.Uint64, m1 *mappedFile, 
 		// Check new elements in chain for duplicates.
 		old := head
 		head = m.load32(headOff)
-		for off := head; off != old; {
+		maxRecords := len(m.mapping.Data) / recordUnit
+		for off, n := head, 0; off != old; n++ {
 			ename, enext, v, ok := m.entryAt(off)
-			if !ok {
+			if !ok || n > maxRecords {
 				return nil, nil, errCorrupt
 			}
 			if string(ename) == name {
